@@ -91,6 +91,78 @@ pub enum Source {
     Styled(crate::props::c05::Case),
     /// annotations of every kind (the spec of C06)
     Annot(crate::gen::annot::AnnotWb),
+    /// Excel-2010 (x14, extLst) data validations with one or two bounds on another sheet
+    X14(Vec<X14Spec>),
+}
+
+#[derive(Debug, Clone, Serialize, Deserialize)]
+pub struct X14Spec {
+    pub kind: u8,
+    pub op: u8,
+    pub f1: (u32, u32),
+    pub f2: Option<(u32, u32)>,
+    pub at: (u32, u32, u32, u32),
+}
+
+fn build_x14(items: &[X14Spec]) -> Spreadsheet {
+    use umya_spreadsheet::structs::office::excel::Formula;
+    use umya_spreadsheet::structs::office2010::excel::{DataValidation, DataValidationForumla1, DataValidationForumla2, DataValidations};
+    use umya_spreadsheet::{Address, DataValidationOperatorValues as Op, DataValidationValues as Ty};
+    let formula = |c: (u32, u32)| {
+        let mut a = Address::default();
+        a.set_address(format!("Limits!${}${}", crate::props::c17::ref_col_name(c.0), c.1));
+        let mut f = Formula::default();
+        f.set_value(a);
+        f
+    };
+    // not new_file(): it calls Worksheet::set_active_cell, which is C06's open finding
+    // worksheet-active-cell/lost
+    let mut book = umya_spreadsheet::new_file_empty_worksheet();
+    book.new_sheet("Sheet1").unwrap();
+    book.new_sheet("Limits").unwrap();
+    let mut list = DataValidations::default();
+    for x in items {
+        let mut dv = DataValidation::default();
+        let ty = [Ty::Whole, Ty::Decimal, Ty::Date, Ty::TextLength, Ty::Time][x.kind as usize % 5].clone();
+        let op = [Op::Between, Op::NotBetween, Op::GreaterThan, Op::LessThanOrEqual, Op::Equal][x.op as usize % 5].clone();
+        dv.set_type(ty).set_operator(op).set_allow_blank(true);
+        let mut f1 = DataValidationForumla1::default();
+        f1.set_value(formula(x.f1));
+        dv.set_formula1(f1);
+        if let Some(c) = x.f2 {
+            let mut f2 = DataValidationForumla2::default();
+            f2.set_value(formula(c));
+            dv.set_formula2(f2);
+        }
+        let (c1, r1, c2, r2) = x.at;
+        dv.get_reference_sequence_mut().set_sqref(format!(
+            "{}{}:{}{}",
+            crate::props::c17::ref_col_name(c1.min(c2)),
+            r1.min(r2),
+            crate::props::c17::ref_col_name(c1.max(c2)),
+            r1.max(r2)
+        ));
+        list.add_data_validation_list(dv);
+    }
+    let ws = book.get_sheet_by_name_mut("Sheet1").unwrap();
+    ws.get_cell_mut("A1").set_value_number(1);
+    if !items.is_empty() {
+        ws.set_data_validations_2010(list);
+    }
+    book
+}
+
+fn x14_strategy(_t: Tier) -> BoxedStrategy<Case> {
+    let item = (0u8..5, 0u8..5, (1u32..=6, 1u32..=9), prop::option::weighted(0.6, (1u32..=6, 1u32..=9)), (1u32..=8, 1u32..=20, 1u32..=8, 1u32..=20))
+        .prop_map(|(kind, op, f1, f2, at)| X14Spec { kind, op, f1, f2, at });
+    (prop::collection::vec(item, 1..=4), prop::option::weighted(0.3, edit_strategy()), any::<bool>())
+        .prop_map(|(items, edit, light)| Case {
+            source: Source::X14(items),
+            edit,
+            light,
+            lazy_edit: false,
+        })
+        .boxed()
 }
 
 #[derive(Debug, Clone, Serialize, Deserialize)]
@@ -183,7 +255,7 @@ fn corpus_strategy(t: Tier) -> BoxedStrategy<Case> {
 /// writer, no edit); in the quick tier the files whose decode takes seconds are left out.
 fn python_leg_applies(case: &Case) -> bool {
     match &case.source {
-        Source::Generated(_) | Source::Styled(_) | Source::Annot(_) => true,
+        Source::Generated(_) | Source::Styled(_) | Source::Annot(_) | Source::X14(_) => true,
         Source::Corpus(name) => {
             let quick = std::env::var("VERIF_TIER").map(|t| t != "thorough").unwrap_or(true);
             case.edit.is_none() && !case.light && !(quick && (HEAVY.contains(&name.as_str()) || name == "issue_194_2.xlsx"))
@@ -331,12 +403,21 @@ pub fn check_case(case: &Case, obs: &mut Obs) -> Verdict {
                 Err(p) => return Verdict::fail(format!("build/panic:{}", p.site()), p.short()),
             }
         }
+        Source::X14(items) => {
+            obs.class("x14-validations");
+            obs.nontrivial(true);
+            match guard(|| build_x14(items)) {
+                Ok(b) => b,
+                Err(p) => return Verdict::fail(format!("build/panic:{}", p.site()), p.short()),
+            }
+        }
     };
     let src = match &case.source {
         Source::Corpus(_) => "corpus",
         Source::Generated(_) => "generated",
         Source::Styled(_) => "styled",
         Source::Annot(_) => "annotated",
+        Source::X14(_) => "x14",
     };
     let d0 = dump_book(&l0);
     obs.nontrivial(source_nontrivial(&d0));
@@ -590,6 +671,13 @@ fn subs() -> Vec<Box<dyn DynSub>> {
             cases: (40, 2000),
             check: check_case,
             max_shrink_iters: 2000,
+        }),
+        Box::new(Sub {
+            name: "x14",
+            strategy: x14_strategy,
+            cases: (20, 800),
+            check: check_case,
+            max_shrink_iters: 800,
         }),
         Box::new(Sub {
             name: "annotated",
